@@ -150,6 +150,28 @@ func (m *mutator) addValid(label string, f func(b *SignedBlock, body BodyRef) bo
 	m.out = append(m.out, Mutant{Label: label, Rule: "valid", ExpectValid: true, Resigned: true, Block: b})
 }
 
+// sameProposerLater looks at the mutant just added (the block moved d slots into the future): if the block's
+// proposer also is the proposer of that later slot — which happens in small validator sets — the moved block
+// can be a perfectly valid block of the later slot, so the mutant is marked Unclassified instead of must-reject.
+func (m *mutator) sameProposerLater(d common.Slot) {
+	if len(m.out) == 0 {
+		return
+	}
+	defer func() { _ = recover() }()
+	st := WrapState(m.s.Pre)
+	epc, err := FreshEpc(m.c.Spec, st)
+	if err != nil {
+		return
+	}
+	if err := common.ProcessSlots(context.Background(), m.c.Spec, epc, st, m.s.Slot+d); err != nil {
+		return
+	}
+	if p, err := epc.GetBeaconProposer(m.s.Slot + d); err == nil && p == m.s.Proposer {
+		mu := &m.out[len(m.out)-1]
+		mu.Unclassified, mu.Rule = true, "header.slot(same-proposer-later)"
+	}
+}
+
 func flip(sig *common.BLSSignature) { sig[len(sig)/2] ^= 0x01 }
 
 func (m *mutator) key(v common.ValidatorIndex) (int, bool) { return m.c.keyOfIn(m.st, v) }
@@ -209,11 +231,13 @@ func (m *mutator) blockLevel() {
 	})
 	// header fields (re-signed: the signature is right for the corrupted header)
 	m.add("header.slot:+1", "header.slot/proposer", true, func(b *SignedBlock, _ BodyRef) bool { *b.Header().Slot++; return true })
+	m.sameProposerLater(1)
 	m.add("header.slot:-1", "header.slot", true, func(b *SignedBlock, _ BodyRef) bool { *b.Header().Slot--; return true })
 	m.add("header.slot:+epoch", "header.slot/proposer", true, func(b *SignedBlock, _ BodyRef) bool {
 		*b.Header().Slot += spec.SLOTS_PER_EPOCH
 		return true
 	})
+	m.sameProposerLater(spec.SLOTS_PER_EPOCH)
 	other := common.ValidatorIndex((uint64(prop) + 1) % uint64(len(m.flats)))
 	m.add("header.proposer_index:other(signed-by-real-proposer)", "header.proposer_index", false, func(b *SignedBlock, _ BodyRef) bool {
 		*b.Header().ProposerIndex = other
